@@ -52,6 +52,10 @@ def run(ctx, rep):
     # matrix cells: the index rule is shared with C12 (a value assigned to (i, j) must land at the row-major offset)
     import rules.C12 as C12
     C12.hmat(f, rep); C12.slit(f, rep, with_checksum=False)
+    # builder programs = constructor + any sequence of setters: a setter-filled field holds what the setters wrote, so the
+    # effect of every setter / option builder on the fields (shared with C11) is part of "the image holds the caller's values"
+    import rules.C11 as C11
+    C11.builders(f, rep)
 
 def check_struct(f, rep, ty, ctor, items, source, self_view, table=False):
     subj = '%s::%s' % (ty, ctor or 'self')
